@@ -28,6 +28,7 @@ type k2Batch struct {
 	FailOn   [][2]string // (function, payload) pairs that make fallible custom functions fail
 	ValModes int         // number of values per method
 	Share    int
+	Spec     string // "structural": ask the driver to compare with Gv.Spec.specMap
 }
 
 type k2Call struct {
@@ -38,6 +39,7 @@ type k2Call struct {
 	Values    []string `json:"arguments"`
 	Impl      string   `json:"implementation"`
 	Model     string   `json:"model"`
+	SpecDiff  string   `json:"specification,omitempty"`
 }
 
 type k2Result struct {
@@ -158,6 +160,9 @@ func runK2(e *env, name string, batches []*k2Batch) (*k2Result, error) {
 					}
 				}
 				req.Add(failNode, callsNode)
+				if kb.Spec != "" {
+					req.Add(sx.H("spec", sx.A(kb.Spec)))
+				}
 				reqs = append(reqs, req)
 				reqCalls = append(reqCalls, mine)
 			}
@@ -182,8 +187,11 @@ func runK2(e *env, name string, batches []*k2Batch) (*k2Result, error) {
 					continue
 				}
 				for j, rnode := range a.Args() {
-					if j < len(reqCalls[i]) && len(rnode.L) == 2 {
+					if j < len(reqCalls[i]) && len(rnode.L) >= 2 {
 						reqCalls[i][j].Model = rnode.L[1].String()
+						if len(rnode.L) == 3 {
+							reqCalls[i][j].SpecDiff = rnode.L[2].String()
+						}
 					}
 				}
 			}
